@@ -131,7 +131,17 @@ theorem complete_member_exact (st : State) (t : Ty) (w : Str) (l : List Str)
     unfold Member
     generalize ht1 : (if kindOf st.tbl t == Kind.ptr then elemOf t else t) = t1 at hl0 ⊢
     split at hl0
-    · cases hl0
+    · -- the nil type of the predeclared `nil`: no member
+      rename_i hinv
+      cases hl0
+      have ht : t = .invalid := by
+        cases t <;> simp [kindOf] at hinv ⊢
+        rename_i id
+        split at hinv <;> simp at hinv
+      subst ht
+      simp only [kindOf] at ht1
+      subst ht1
+      simp [kindOf, methodsVia, methodNames, structOf, elemOf]
     · simp only at hl0
       split at hl0
       · rename_i hpi
@@ -188,7 +198,7 @@ theorem list_prefix {tbl : Table} {t : Ty} {pre : Str} {l : List Str}
   unfold listFieldsAndMethods at h
   generalize (if kindOf tbl t == Kind.ptr then elemOf t else t) = t1 at h
   split at h
-  · cases h
+  · cases h; cases hy
   · simp only at h
     split at h
     · cases h; cases hy
@@ -239,7 +249,7 @@ theorem completeWords_prefix {st : State} : ∀ (ws : List Str) (node : Node) (i
     simp only [completeWords] at h
     rw [List.getLast?_cons_cons]
     split at h
-    · cases h
+    · cases h; cases hy
     · split at h
       · cases h; cases hy
       · exact completeWords_prefix (w2 :: ws) _ _ l h y hy
@@ -320,22 +330,40 @@ theorem reassemble {cl : Classes} (hcl : cl.Sane) (kw : List Str) (st : State) (
         simp only [ge_iff_le] at hn ⊢
         rw [if_neg hn]
 
-/-- the byte cut: on a rune boundary head ++ tail is the line -/
-theorem splitAtByte_exact : ∀ (line : Str) (pos : Nat) (h t : Str),
-    splitAtByte line pos = (h, t, true) → h ++ t = line
-  | [], _, h, t, e => by simp [splitAtByte] at e; simp [e.1, e.2]
-  | c :: cs, pos, h, t, e => by
-    simp only [splitAtByte] at e
-    split at e
-    · simp at e; simp [e.1, e.2]
-    · split at e
-      · simp at e
-      · rcases hr : splitAtByte cs (pos - utf8Len c) with ⟨h', t', x⟩
-        rw [hr] at e
-        simp only [Prod.mk.injEq] at e
-        have := splitAtByte_exact cs _ h' t' (by rw [hr, e.2.2])
-        rw [← e.1, ← e.2.1]
-        simp [this]
+/-- the typed prefix that is replaced is a valid identifier (or empty): identifier characters only,
+    never starting with a digit -/
+theorem typed_prefix_is_identifier (cl : Classes) (head : Str) :
+    (∀ c ∈ tailIdentifier cl head, identCh cl c = true) ∧
+    (∀ c rest, tailIdentifier cl head = c :: rest → isLetterCh cl c = true) :=
+  ⟨tailIdentifier_all_ident cl head, tailIdentifier_head_letter cl head⟩
+
+/-- `reassemble_line`: `Interp.CompleteWords(line, pos)` for EVERY line and EVERY cursor `pos` (an index
+    in runes; negative and past-the-end included), with `k = cutIndex line pos` runes before the cursor and
+    `typed = TailIdentifier(line[:k])`:  head ++ typed ++ tail is the line; every completion `c` extends
+    `typed`, and `head ++ c ++ tail` is the line with the missing characters of `c` inserted at the cursor. -/
+theorem reassemble_line {cl : Classes} (hcl : cl.Sane) (kw : List Str) (st : State) (line : Str) (pos : Int)
+    (r : Result) (h : interpComplete cl kw st line pos = some r) :
+    let k := cutIndex line pos
+    let typed := tailIdentifier cl (line.take k)
+    r.tail = line.drop k ∧
+    (r.completions = [] → r.head ++ r.tail = line) ∧
+    (r.completions ≠ [] →
+      r.head ++ typed ++ r.tail = line ∧
+      ∀ c ∈ r.completions, ∃ ext, c = typed ++ ext ∧
+        r.head ++ c ++ r.tail = line.take k ++ ext ++ line.drop k) := by
+  intro k typed
+  obtain ⟨h1, h2, h3⟩ := reassemble hcl kw st _ _ r h
+  refine ⟨h1, ?_, ?_⟩
+  · intro he
+    rw [h2 he, h1]; exact List.take_append_drop _ _
+  · intro hne
+    obtain ⟨h4, h5⟩ := h3 hne
+    refine ⟨?_, h5⟩
+    show r.head ++ tailIdentifier cl (line.take (cutIndex line pos)) ++ r.tail = line
+    rw [h4, h1]; exact List.take_append_drop _ _
+
+/-- the cursor is clamped to the line -/
+theorem cutIndex_le (line : Str) (pos : Int) : cutIndex line pos ≤ line.length := Nat.min_le_right _ _
 
 /-- "fo" typed after "x := " with the cursor before ")" : head drops "fo", completions extend it -/
 example : completeAt ⟨fun _ => false, fun _ => false, fun _ => false⟩ [[102, 111, 114]]
